@@ -126,7 +126,11 @@ func genMode(t *testing.T, p *props.Prop) {
 	total := len(enum) + nRandom
 	maxViol := envInt("SIM_MAXVIOL", 40)
 	sigSeen := map[string]int{}
+	upto := envInt("SIM_UPTO", -1) // replay of a worker's history: stop after this index
 	for i := shardK; i < total; i += shardN {
+		if upto >= 0 && i > upto {
+			break
+		}
 		if time.Since(start) > wallCap {
 			sum.Aborted["wall-cap"]++
 			break
